@@ -24,7 +24,7 @@ TRUSTED = [
   'Kosaraju SCC partition is not modelled: the real partition is executed and its result checked',
 ]
 ASSUMPTIONS = ['self-dependence inside one block (reading a bit the same block writes) is outside the hypotheses (GenDAGPass ignores it)']
-RULE = ('cyclic designs of six kinds (false / convergent pair / convergent ring of 3-4 / ring of 10-14 mostly branchy blocks (cut into several meta blocks by Mamba2020) / divergent / update_once-in-loop) plus upstream and '
+RULE = ('cyclic designs of seven kinds (false / false loop through separately written fields of a bitstruct read as a whole / convergent pair / convergent ring of 3-4 / ring of 10-14 mostly branchy blocks (cut into several meta blocks by Mamba2020) / divergent / update_once-in-loop) plus upstream and '
         'downstream blocks, random operators and widths; a case = (design, pass group); all are non-trivial; distinct by (source, flow)')
 
 def fn1(rng, w, e):
@@ -95,6 +95,31 @@ def gen_cyclic(rng, kind):
       blk([((xs[i].idx, 0, w), e)])
     blk([((out.idx, 0, w), R(xs[0]))])
     expect = 'value'
+  elif kind == 'structloop':
+    # a false loop through the fields of a bitstruct: one block writes two (or three) fields of `m` separately, another block
+    # of the same cyclic group reads `m` as a whole (`s.n @= s.m`); the watch list is built from the objects recorded for the
+    # edges, so every field written in the group has to end up watched, whichever side discovered the edge
+    nf = rng.randint(2, 3)
+    st = rtlgen.StructT(f'SL{d.uid}', [(f'f{i}', w) for i in range(nf)])
+    m = d.new_sig('', 'm', 0, 'wire', st); n = d.new_sig('', 'n', 0, 'wire', st)
+    fr = {p_: (lo, ww) for (p_, lo, ww, _) in st.named()}
+    F = lambda sg, i: (sg.idx,) + fr[f'f{i}']
+    ins = [i0, i1, d.new_sig('', 'in2', w, 'in')]
+    def copy_blk(): blk([((n.idx, 0, st.width), R(m))])
+    def split_blk():
+      asgs = [(F(m, 0), fn1(rng, w, R(ins[0])))]
+      for i in range(1, nf):
+        src = ('r',) + F(n, i - 1)
+        asgs.append((F(m, i), ('b', rng.choice(['or', 'xor', 'add']), w, fn1(rng, w, src), R(ins[i]))))
+      rng.shuffle(asgs)
+      blk(asgs)
+    def out_blk(): blk([((out.idx, 0, w), ('r',) + F(n, nf - 1))])
+    # optionally a predecessor both blocks read, so that both are BFS roots of the group and run in name order
+    todo = [copy_blk, split_blk, out_blk]
+    rng.shuffle(todo)
+    for f in todo: f()
+    expect = 'value'
+    fine = 'one-at-a-time'
   elif kind == 'bigring':
     # a monotone ring of 10-14 blocks, most of them with an if/else: Mamba2020 cuts an SCC of >= 10 blocks into several
     # meta blocks (after 5 consecutive branchy blocks, or branchiness 20); DynamicSchedulePass keeps one flat group
@@ -133,6 +158,7 @@ def gen_cyclic(rng, kind):
     expect = 'cond'
   else:
     raise ValueError(kind)
+  d.fine_inputs = fine
   return d, expect
 
 def once_source(uid):
@@ -169,12 +195,19 @@ def run(ck):
   n = 250 if ck.tier == 'quick' else 8000
   lines, meta = [], []
   for _ in range(n):
-    kind = rng.choice(['false', 'false', 'conv', 'ring', 'ring', 'div', 'divcond', 'bigring'])
+    kind = rng.choice(['false', 'false', 'conv', 'ring', 'ring', 'div', 'divcond', 'bigring', 'structloop'])
     d, expect = gen_cyclic(rng, kind)
     src = d.source()
     ck.extra_cov.setdefault('sample_design_source', src)
     cls = rtlgen.load_class(ck.workdir, d)
     cycles = rtlgen.gen_inputs(rng, d, rng.randint(4, 8))
+    if getattr(d, 'fine_inputs', None) == 'one-at-a-time':
+      # change one input per cycle: a sweep in which only one (possibly unwatched) variable moves
+      cur = dict(cycles[0]); cycles = [sorted(cur.items())]
+      for _ in range(rng.randint(6, 10)):
+        g = rng.choice([k for k in cur if d.sigs[k].name != 'reset'])
+        cur[g] = rng.getrandbits(d.sigs[g].width)
+        cycles.append(sorted(cur.items()))
     ck.hist('kind', kind)
     # (e) acyclic-only passes must reject
     for flow in ['simple', 'heutopo', 'unroll']:
@@ -186,7 +219,7 @@ def run(ck):
       if outcome != 'UpblkCyclicError':
         ck.violation('cycle-not-rejected', {'flow': flow}, {'source': src, 'flow': flow},
                      {'outcome': outcome, 'oracle': 'passes that cannot iterate must raise UpblkCyclicError on a cyclic block graph'})
-    ref = rtlgen.RefSim(d) if kind == 'false' else None
+    ref = rtlgen.RefSim(d) if kind in ('false', 'structloop') else None
     for flow in ['default', 'mamba']:
       ck.count({'src_hash': hash(src) & 0xffffffff, 'flow': flow}, True); ck.hist('flow', flow)
       try:
@@ -202,7 +235,7 @@ def run(ck):
         ck.disagreement('cyclic design scheduled without an SCC block', {'source': src, 'flow': flow}, 'scc expected', str(entries)); continue
       trace, status = [], 'ok'
       comb_blks = [b for b in rs.top._dag.final_upblks]
-      refsim = rtlgen.RefSim(d) if kind == 'false' else None
+      refsim = rtlgen.RefSim(d) if kind in ('false', 'structloop') else None
       for k, ins in enumerate(cycles):
         rs.set_inputs(ins)
         try:
@@ -232,7 +265,7 @@ def run(ck):
       if kind == 'div' and status == 'ok':
         ck.violation('divergent-loop-returned', {'flow': flow}, {'source': src, 'flow': flow, 'inputs': cycles, 'signals': [s_.path for s_ in d.sigs]},
                      {'trace': trace[:2], 'oracle': 'a loop with no stable assignment must raise UpblkCyclicError'})
-      if kind in ('false', 'conv', 'ring', 'bigring') and status != 'ok':
+      if kind in ('false', 'conv', 'ring', 'bigring', 'structloop') and status != 'ok':
         ck.violation('convergent-loop-rejected', {'flow': flow, 'kind': kind}, {'source': src, 'flow': flow, 'inputs': cycles, 'signals': [s_.path for s_ in d.sigs]}, {'status': status})
       lines.append(rtlgen.model_sim_line(d, entries, [], cycles))
       meta.append(('sim', d, src, flow, entries, cycles, trace, status))
